@@ -227,11 +227,27 @@ class SimWorld:
         kind = op["op"]
         market = self.market
         target = None
+        if self.cfg.get("no_force"):
+            op.pop("force", None)
+        if self.cfg.get("no_cooldowns"):
+            op.pop("reset_seconds", None)
+            op.pop("place_reset_seconds", None)
+        if self.cfg.get("discipline") and kind == "place":
+            runners = self.spec["runners"]
+            rr = runners[op.get("r", 0) % len(runners)]
+            lk = (market.market_id, rr["id"], rr.get("hc", 0))
+            if any(o.trade.strategy is strat and o.lookup == lk and sname(o.status) in ("PENDING", "REPLACING") for o in self.shadow_orders):
+                self.classes.add("skipped-by-discipline")
+                return None
         if kind in ("cancel", "update", "replace", "place_existing"):
             pool = self.shadow_pool(strat, op)
             if not pool:
                 return None
             target = pool[op.get("o", 0) % len(pool)]
+        if self.cfg.get("discipline") and kind == "replace" and target is not None:
+            if any(o.trade.strategy is strat and o.lookup == target.lookup and sname(o.status) in ("PENDING", "REPLACING") for o in self.shadow_orders):
+                self.classes.add("skipped-by-discipline")
+                return None
         before = self.snap(target) if target is not None else None
         guard = self.guard_ok(target, op) if kind in ("cancel", "update", "replace") else None
         if kind == "replace" and target is not None:
@@ -375,7 +391,7 @@ class SimWorld:
             if t != "LIMIT":
                 out.append((o, {"side": o.side, "kind": "SP", "liability": o.order_type.liability}))
                 continue
-            line = o.order_type.price_ladder_definition == "LINE_RANGE"
+            line = self.spec.get("ladder", {}).get("type") == "LINE_RANGE"  # the market's ladder, not the order's attribute
             s = o.simulated
             rem = s.size_remaining
             out.append((o, {"side": o.side, "kind": "LIMIT", "fills": [(m[1], m[2]) for m in s.matched],
@@ -390,7 +406,7 @@ class SimWorld:
         if t != "LIMIT":
             return {"side": order.side, "kind": "SP", "liability": order.order_type.liability}
         return {"side": order.side, "kind": "LIMIT", "fills": [], "open": (price if price is not None else order.order_type.price, order.order_type.size),
-                "line": order.order_type.price_ladder_definition == "LINE_RANGE"}
+                "line": self.spec.get("ladder", {}).get("type") == "LINE_RANGE"}
 
     def check_exposure_decision(self, rec):
         order, kind = rec["order"], rec["kind"]
@@ -406,7 +422,7 @@ class SimWorld:
             new_price = self.prices[rec["op"]["tick"]]
             # the replacement rests with the current remainder at the new price
             newpos = {"side": order.side, "kind": "LIMIT", "fills": [], "open": (new_price, order.simulated.size_remaining),
-                      "line": order.order_type.price_ladder_definition == "LINE_RANGE"}
+                      "line": self.spec.get("ladder", {}).get("type") == "LINE_RANGE"}
             # the replaced order's remainder is taken out (it is cancelled by the replace), its fills stay
             prior = [dict(p, open=None) if o is order else p for o, p in self.position_pairs(strat, order.lookup)]
             self.classes.add("accepted-replace")
@@ -422,8 +438,14 @@ class SimWorld:
                       "accepted %s with own worst-case loss %.2f > max_order_exposure %s (%s)" % (kind, own_loss, strat.max_order_exposure, newpos))
         allp = prior + [newpos]
         w = X.selection_worst(allp)
-        sel_loss = -min(w["win"], w["lose"])
-        if strat.max_selection_exposure is not None and sel_loss > strat.max_selection_exposure + tol:
+        w0 = X.selection_worst(prior)
+        # the decision is judged on the outcome the new order can worsen (BACK: selection loses, LAY: it wins);
+        # an excess on the other side can only stem from earlier (e.g. unacknowledged) orders, never from this one
+        side_key = "lose" if order.side == "BACK" else "win"
+        sel_loss = -w[side_key]
+        if kind == "replace":
+            sel_loss = -min(w["win"], w["lose"]) if -min(w["win"], w["lose"]) > -min(w0["win"], w0["lose"]) + 1e-9 else sel_loss
+        if strat.max_selection_exposure is not None and sel_loss > strat.max_selection_exposure + tol and -w[side_key] > -w0[side_key] - 1e-9:
             self.fail("selection-limit-exceeded", (kind, order.order_type.ORDER_TYPE.name, order.side),
                       "accepted %s: worst-case loss on the selection %.2f > max_selection_exposure %s; prior %s new %s" % (
                           kind, sel_loss, strat.max_selection_exposure, prior, newpos))
@@ -438,7 +460,9 @@ class SimWorld:
                 per.append((ww["win"], ww["lose"]))
             mb = self.market.market_book
             mw = X.market_worst(per, max(mb.number_of_active_runners, len(per)), mb.number_of_winners)
-            if -mw > strat.max_market_exposure + tol * len(per):
+            per0 = [((w0["win"], w0["lose"]) if lk == order.lookup else p) for lk, p in zip(sorted(lookups), per)]
+            mw0 = X.market_worst(per0, max(mb.number_of_active_runners, len(per)), mb.number_of_winners)
+            if -mw > strat.max_market_exposure + tol * len(per) and mw < mw0 - 1e-9:
                 self.fail("market-limit-exceeded", (kind, order.order_type.ORDER_TYPE.name),
                           "accepted %s: worst-case market loss %.2f > max_market_exposure %s (per runner %s)" % (kind, -mw, strat.max_market_exposure, per))
             self.classes.add("market-limit-active")
@@ -622,6 +646,7 @@ class SimWorld:
             self.inv_blotter()
         if "exposure" in self.checks:
             self.inv_exposure_consequence()
+            self.check_realised()
         self.after_boundary()
 
     def after_boundary(self):
@@ -796,6 +821,26 @@ class SimWorld:
 
     def sp_slack(self, strat, lk):
         return 0.0
+
+    def check_realised(self):
+        """after closure: realised loss per selection within the limit (discipline runs only)"""
+        if not self.cfg.get("discipline") or not self.closed_market:
+            return
+        for strat in self.lab.strategies:
+            lim = strat.max_selection_exposure
+            if lim is None:
+                continue
+            per = {}
+            for o in self.shadow_orders:
+                if o.trade.strategy is strat:
+                    per.setdefault(o.lookup, []).append(o)
+            for lk, orders in per.items():
+                pnl = sum(o.profit for o in orders)
+                m = sum(o.size_matched for o in orders)
+                if pnl < -lim - 0.011 - 0.006 * m:
+                    self.fail("realised-loss-exceeds-limit", (), "realised P&L %.2f on %s, max_selection_exposure %s; orders %s" % (
+                        pnl, lk, lim, [(o.side, o.order_type.ORDER_TYPE.name, o.size_matched, o.average_price_matched, o.runner_status, o.profit) for o in orders]))
+                self.classes.add("realised-checked")
 
     # ------------------------------------------------------------------------------------------
     def summary(self):
@@ -995,6 +1040,35 @@ def make_machine(world_cls, checks, cfg_strategy, rule_weights=None):
                 self._do({"_": "remove", "dt": 50, "af": 10, "ri": r})
             elif ev != "none":
                 self._do({"_": "book", "dt": 50, "rc": [{"r": r, "trd": [[tick, 500.0 if ev == "fill" else 1.0]]}]})
+            self._do({"_": "book", "dt": d(st.sampled_from([50, 1000])), "rc": []})
+
+        @precondition(lambda self: rw.get("squeeze", 0) > 0)
+        @rule(data=st.data())
+        def squeeze(self, data):
+            """directed (C01): two orders that each fit a limit but not together; the second is requested while a
+            request on the first (already acknowledged) is in flight"""
+            d = data.draw
+            si = d(st.integers(0, self.ns - 1))
+            scfg = self.w.cfg["strategies"][si]
+            lim = scfg.get("max_selection_exposure") or scfg.get("max_market_exposure") or scfg.get("max_order_exposure") or 10
+            r = d(st.integers(0, self.nr - 1))
+            side = d(st.sampled_from(["BACK", "BACK", "LAY"]))
+            frac = d(st.sampled_from([0.55, 0.7, 0.95]))
+            if side == "BACK":
+                tick, size = min(self.nt - 1, self.mids[r] + 20), round(lim * frac, 2)
+            else:
+                tick = max(0, self.mids[r] - 20)
+                size = round(lim * frac / max(0.01, self.w.prices[tick] - 1), 2)
+            size = max(0.01, size)
+            self._do({"_": "req", "op": "place", "si": si, "r": r, "side": side, "type": "LIMIT", "tick": tick, "size": size,
+                      "pers": "LAPSE", "trade": "new"})
+            self._do({"_": "book", "dt": 300, "rc": []})
+            fo = d(st.sampled_from([{"op": "cancel", "red": 0.25}, {"op": "cancel", "red": None}, {"op": "replace", "ticks": 1}, {"op": "update", "pers": "PERSIST"}, None]))
+            if fo:
+                self._do({"_": "req", **fo, "si": si, "o": -1, "pool": "any"})
+            r2 = r if d(st.integers(0, 2)) else d(st.integers(0, self.nr - 1))
+            self._do({"_": "req", "op": "place", "si": si, "r": r2, "side": side, "type": "LIMIT", "tick": tick, "size": size,
+                      "pers": "LAPSE", "trade": "new"})
             self._do({"_": "book", "dt": d(st.sampled_from([50, 1000])), "rc": []})
 
         @precondition(lambda self: rw["place_existing"] > 0)
